@@ -174,7 +174,7 @@ pub fn load_known() -> Vec<KnownFinding> {
     }
 }
 
-fn known_match<'a>(known: &'a [KnownFinding], prop: &str, v: &Violation) -> Option<&'a KnownFinding> {
+pub fn known_match<'a>(known: &'a [KnownFinding], prop: &str, v: &Violation) -> Option<&'a KnownFinding> {
     known.iter().find(|k| {
         k.status == "known"
             && k.property == prop
